@@ -171,7 +171,8 @@ def qtop_case(rng, i, tmp, ctx):
     idxs = rep_indices(rng)
     cl = cfg_lists(rng, idxs)
     dn, nn, tmax = int(rng.choice([1, 2])), int(rng.integers(3, 6)), int(rng.integers(2, 5))
-    eps, L = 0.02, 4
+    L = 4
+    eps = float(rng.choice([0.02, 0.01, 0.025]))
     n_target = int(rng.integers(0, nn + 1))
     c = float(np.sqrt(n_target * 8 * eps * dn) / L)
     replicas = {k: [(cfg, [[[val(k, cfg, 1000 * o + 10 * fl + t) for t in range(tmax)] for fl in range(nn + 1)] for o in range(3)]) for cfg in cl[k]] for k in idxs}
@@ -194,7 +195,7 @@ def qtop_case(rng, i, tmp, ctx):
 def gfms_case(rng, i, tmp, ctx):
     idxs = rep_indices(rng)
     cl = cfg_lists(rng, idxs)
-    ncs, tmax, L, cmax = int(rng.integers(2, 5)), 5, 4, 0.4
+    ncs, tmax, L, cmax = int(rng.integers(2, 7)), 5, 4, float(rng.choice([0.4, 0.5, 0.3]))
     zeuthen = bool(rng.random() < 0.5)
     j = int(rng.integers(0, ncs + 1))
     c = cmax / ncs * j
@@ -289,14 +290,33 @@ def sfcf_case(rng, i, tmp, ctx):
     im = bool(rng.random() < 0.4)
     shuffle = bool(rng.random() < 0.7)
     kw = {'im': im} if im else {}
+    sel = {'k': 'all'}
+    if not appended and rng.random() < 0.45:
+        # an explicit selection of configuration files / directories per replica, handed over in arbitrary order
+        files, want = [], []
+        for k in idxs:
+            keep = sorted(rng.choice(len(cl[k]), size=int(rng.integers(5, len(cl[k]) + 1)) if len(cl[k]) > 5 else len(cl[k]), replace=False).tolist())
+            cfgs = [cl[k][j] for j in keep]
+            want.append(list(cfgs))
+            fl = [('tst_r%d_n%d' % (k, c)) if version.endswith('c') else ('cfg%d' % c) for c in cfgs]
+            rng.shuffle(fl)
+            files.append(fl)
+        kw['files'] = files
+        sel = {'k': 'list', 'idl': want}
+    if not appended and rng.random() < 0.3:
+        reps_arg = ['tst_r%d' % k for k in idxs]
+        rng.shuffle(reps_arg)
+        if 'files' not in kw:
+            kw['replica'] = reps_arg
     with shuffled_listing(rng, shuffle):
         r = quiet(lambda: pe.input.sfcf.read_sfcf(d, 'tst', spec.name, quarks=spec.quarks, corr_type=spec.corr_type, noffset=spec.offset, wf=spec.wf,
                                                    wf2=spec.wf2 or 0, version=version, silent=True, **kw))
     objs = r if isinstance(r, Exception) else list(r)
     reps = [{'stem': 'tst_r%d' % k, 'recs': [{'cfg': cfg, 'p': [[rat(re), rat(im_)] for re, im_ in corrs[tuple(spec)]]} for cfg, corrs in replicas['tst_r%d' % k]]} for k in idxs]
-    cid = 'sfcf-%04d-v%s-r%s-%s-wf%d%d-%s%s' % (i, version, '_'.join(map(str, idxs)), spec.name, spec.wf, spec.wf2 or 0, 'im' if im else 're', '-shuf' if shuffle else '')
-    ctx.nontrivial.add(('sfcf', version, tuple(idxs), which, im, shuffle))
-    return [{'id': cid, 'ev': 'read', 'fmt': 'sfcf', 'reps': reps, 'par': {'im': im}, 'sel': {'k': 'all'}, 'res': res_series(objs)}]
+    cid = 'sfcf-%04d-v%s-r%s-%s-wf%d%d-%s-%s%s%s' % (i, version, '_'.join(map(str, idxs)), spec.name, spec.wf, spec.wf2 or 0, 'im' if im else 're', sel['k'],
+                                                  '-replica' if 'replica' in kw else '', '-shuf' if shuffle else '')
+    ctx.nontrivial.add(('sfcf', version, tuple(idxs), which, im, shuffle, sel['k'], 'replica' in kw))
+    return [{'id': cid, 'ev': 'read', 'fmt': 'sfcf', 'reps': reps, 'par': {'im': im}, 'sel': sel, 'res': res_series(objs)}]
 
 
 def hd5_case(rng, i, tmp, ctx):
